@@ -37,11 +37,33 @@ def make(job):
                 term = g
         e = term if e is None else ("b", lo, rng.choice(X.SPELL[lo])[0], e, term)
         return X.paren(e), True
+    if kind == "lex":
+        # names whose tail, written next to a sign and an integer, reads like a real constant with an exponent that
+        # also occurs in the expression on its own ('1e-3 + x1e-3' is (1e-3 + x1e) - 3)
+        _, idx, rep = job
+        return X.paren(LEX_TREES()[idx]), True
     if kind == "raw":
         _, seed, depth = job
         rng = random.Random(seed)
         return X.fill(X.random_shape(rng, depth), rng), False
     raise ValueError(kind)
+
+
+_lex = []
+
+
+def LEX_TREES():
+    import expr_corr as X
+    if not _lex:
+        A = lambda t: ("a", t)   # noqa
+        for n, sg, i, c in (("x1e", "-", "3", "1e-3"), ("y2d", "+", "5", "2d+5"), ("a1E", "-", "3", "1E-3"), ("p_2d", "-", "2", "2d-2"),
+                            ("x3e", None, "5", "3e5"), ("e1e", None, "5", "1e5"), ("q1e", "-", "3", "1e-3_8")):
+            tail = A(n + i) if sg is None else ("b", X.OAdd, sg, A(n), A(i))
+            for op, cls in (("+", X.OAdd), ("-", X.OAdd), ("*", X.OMul), ("/", X.OMul), ("//", X.OCat), ("==", X.ORel), (".and.", X.OAnd)):
+                _lex.append(("b", cls, op, A(c), tail))
+                _lex.append(("b", cls, op, tail, A(c)))
+                _lex.append(("b", X.OAdd, "+", ("b", cls, op, A(c), A("f(%s)" % c)), tail))
+    return _lex
 
 
 _shapes = {}
@@ -117,6 +139,9 @@ def run(ctx):
         jobs.append(("wide", ctx.seed * 1019 + k))
     for k in range(ctx.n(500, 10000)):
         jobs.append(("raw", ctx.seed * 1021 + k, 2 + k % 3))
+    for idx in range(len(LEX_TREES())):
+        for rep in range(4):
+            jobs.append(("lex", idx, rep))
     failures, dis = [], []
     nconf = 0
     for job, (st, r) in zip(jobs, pool.pmap(check_one, jobs, chunksize=50)):
